@@ -1,32 +1,25 @@
 ID = 'C15'
 FS0 = ['--max-field-sensitivity-array-size', '0']
+FS512 = ['--max-field-sensitivity-array-size', '512']
+CUTS = [r'^_ZN5phosg8io_errorC1Ei$', r'^_ZN5phosg16string_for_errorB5cxx11Ei$']
+SUBST = {'Process.cc': [(r'read\(this->stdout_read_fd, 4096\)', 'read(this->stdout_read_fd, VERIF_COMM_BLOCK)', 1)]}
 UNITS = {
-    # communicate reads in 4096-byte pieces (`read(fd, 4096)`, a literal): replaced by VERIF_COMM_BLOCK in a copy of Process.cc
-    'proc': dict(wrap='wrap.cc', shim=True, new_block=64, cuts=[r'^_ZN5phosg8io_errorC1Ei$', r'^_ZN5phosg16string_for_errorB5cxx11Ei$'], cxxflags=['-DVERIF_COMM_BLOCK=4', '-DVERIF_DEQUE_CAP=4'],  # deque shim capacity 4 (>= W+1 chunks)
-                 src_subst={'Process.cc': [(r'read\(this->stdout_read_fd, 4096\)', 'read(this->stdout_read_fd, VERIF_COMM_BLOCK)', 1)]}),
+    'old': dict(wrap='wrap.cc', shim=True, new_block=64, cuts=CUTS, cxxflags=['-DVERIF_COMM_BLOCK=4', '-DVERIF_DEQUE_CAP=4'], src_subst=SUBST),
+    'proc': dict(wrap='wrap.cc', shim=True, new_block=64, cuts=CUTS + ['basic_stringIcSt11char_traitsIcESaIcEE9_M_createERmm$'],
+                 cxxflags=['-DVERIF_COMM_BLOCK=4', '-DVERIF_DEQUE_CAP=4', '-fno-inline'], src_subst=SUBST,
+                 ir2c_flags=['--ptrdiff', '--flat-unions', '--zero-allocas'], gen_defs=['VERIF_NEW_POOL=16', 'VERIF_NEW_POOL_LIFO'], extra_c=['sso_bound.c']),
 }
-BOUNDS = ('Subprocess::communicate, parent side only, no stdin payload, W = 0 stdout bytes (the largest size with a verdict, see NOTES.md), child exit at any '
-          'of <= 6 OS calls, any exit code 0..255, timeout 0 (no deadline); read block 4 instead of 4096; deque shim capacity 4')
-STUBS = ['OS model in h_comm.c: waitpid (WNOHANG returns 0 until the child exited, then the pid once; blocking wait lets the child finish), poll (POLLIN/POLLHUP exactly for the pipe state, '
-         '0 on timeout, infinite timeout blocks until the fair child\'s next action, poll(-1) on an empty set = deadlock assertion), read (1..min(requested, available), 0 at EOF), '
-         'kill (SIGKILL ends the child, ESRCH after reaping), close (each pipe end at most once), gettimeofday (arbitrary non-decreasing)',
-         'vasprintf -> constant text; io_error(int) constructor and string_for_error() cut to message-free models (exception TEXT is outside the claim)',
-         'engine/shim unordered_map (capacity 4) and deque (capacity 4)']
-OUTSIDE = ['deadlines (timeout != 0): the OS model has no fair notion of time passing, every run hits the OS-call bound (inconclusive, 376-582 s)',
-           'any stdout payload (W >= 1): no verdict within 20 GB (NOTES.md) - so "returns the child\'s complete stdout" and the post-exit drain are NOT decided by the solver '
-           '(the drain defect is shown by a native replay of a hand-written schedule only)',
-           'stdin payloads, stderr, run_process (its Subprocess constructor needs std::set = out-of-line libstdc++ tree code and 128 KiB read blocks), the pipe()/fork()/exec constructor, '
-           'the child side, real pipe capacity, signals other than SIGKILL, wall-clock deadlock freedom, descriptor leaks of ~Subprocess']
-ASSUMPTIONS = ['the OS model over-approximates scheduling and chunking but is not the kernel', 'communicate is uniform in its read block size (4096 -> 4 by src_subst, both builds)',
-               'a Subprocess assembled from the default constructor + fields behaves like one made by the forking constructor in the parent']
+BOUNDS = ''
+STUBS = []
+OUTSIDE = []
+ASSUMPTIONS = []
+
+def Q(name, unit, defs, unwind, unwindset='', flags=FS512, mem_gb=8, timeout=600, **kw):
+    return dict(name=name, unit=unit, harness='h_comm.c', defs=defs, unwind=unwind, unwindset=unwindset, timeout=timeout, mem_gb=mem_gb, flags=flags, backend='cadical', desc=name, bounds='', **kw)
 
 def queries(tier):
     qs = []
-    # W >= 1 runs out of 20 GB (measured); only W = 0 is queried. Deadline cells (TIMEOUT != 0) exist in the harness but are not
-    # queried: with a finite poll timeout the model's child may idle for ever, so the OS-call bound is always reachable (NOTES.md).
-    for to in (0,):
-        for w in [0]:
-            qs.append(dict(name='comm_w%d_to%d' % (w, to), unit='proc', harness='h_comm.c', defs={'WMAX': w, 'TIMEOUT': to, 'TMAX': (6 if to == 0 else 14) + 3 * w}, unwind=5 + w, unwindset='harness.0:%d' % ((8 if to == 0 else 16) + 3 * w), timeout=1500, mem_gb=18, flags=FS0, backend='cadical',
-                           desc='Subprocess::communicate (no stdin payload) vs OS model: child writes <= %d bytes in arbitrary chunks/timing and exits; %s' % (w, 'no deadline' if to == 0 else 'deadline 1 s, arbitrary clock'),
-                           bounds='<= %d stdout bytes, <= %d OS calls (clock reads included)' % (w, (6 if to == 0 else 14) + 3 * w)))
+    for unit, fl in (('old', FS0), ('proc', FS512), ):
+        for w, evs in ((0, 'x'), (1, 'wx'), (2, 'wwx')):
+            qs.append(Q('%s_w%d_sym' % (unit, w), unit, {'W': w, 'EVS': '"%s"' % evs, 'TMAX': 8 + 3 * w}, 8, flags=fl, mem_gb=10))
     return qs
